@@ -162,6 +162,13 @@ class ShuffleBase(Expr):
         ):
             return type(parent)(self.frame, *parent.operands[1:])
 
+    def _filter_passthrough_available(self, parent, dependents):
+        if isinstance(self.partitioning_index, Expr):
+            # The key is a separate collection that would not be filtered
+            # together with the frame
+            return False
+        return super()._filter_passthrough_available(parent, dependents)
+
     def _layer(self):
         raise NotImplementedError(
             f"{self} is abstract! Please call `simplify`"
@@ -976,6 +983,10 @@ class SetIndex(BaseSetIndexSortValues):
             return self._filter_simplification(parent)
 
     def _filter_passthrough_available(self, parent, dependents):
+        if isinstance(self._other, Expr):
+            # The new index is a separate collection that would not be filtered
+            # together with the frame
+            return False
         if is_filter_pushdown_available(self, parent, dependents):
             from dask.dataframe.dask_expr._expr import Index
 
